@@ -29,8 +29,9 @@ def run(run: Run):
     for fam in ("params", "params_ristretto"):
         for bits, cap, t, c in fams[fam]:
             add(f"chk_params ({bits},{cap},{c})", fam, [bits, cap, t, c], [fam, bits, cap, c])
-    for cap, count, pcount, seed, c in fams["statement"]:
-        add(f"chk_statement ({cap},{count},{pcount},{seed},{c})", "statement", [cap, count, pcount, seed, c], ["st", cap, count, pcount, seed, c])
+    for row in fams["statement"]:
+        cap, count, pcount, seed, c = row[:5]       # a sixth entry names the seed VALUE of the rows that vary it
+        add(f"chk_statement ({cap},{count},{pcount},{seed},{c})", "statement", [cap, count, pcount, seed, c], ["st", cap, count, pcount, seed, c] + list(row[5:]))
     for shape, c in fams["witness"]:
         add(f"chk_witness ([{';'.join(map(str, shape))}],{c})", "witness", [shape, c], ["w", shape, c])
     for n, c in fams["r_len"]:
@@ -56,7 +57,8 @@ def run(run: Run):
         code = row[-1]
         what = {2: "constructor panicked", 3: "constructor silently adjusted a value"}.get(
             code, "constructor accepts/rejects differently from the documented domain (model disagrees)")
-        run.violation(f"{fam}: {what}: {row}", {"family": fam, "row": row, "kind": "ctor", "meaning": "args..., observed code (1 ok, 0 err, 2 panic, 3 adjusted)"})
+        extra = f" ({cls[6]})" if fam == "statement" and len(cls) > 6 else ""
+        run.violation(f"{fam}: {what}: {row}{extra}", {"family": fam, "row": row, "kind": "ctor", "detail": extra.strip(), "meaning": "args..., observed code (1 ok, 0 err, 2 panic, 3 adjusted)"})
         if len(run.violations) > 5:
             break
     return run.finish(
